@@ -90,18 +90,9 @@ func (cache *MemoryCache[K, V]) Set(key K, value V, ttlSec float64) error {
 	ensureCacheInitialized(cache)
 
 	itemSize := float64(0)
-	if cache.calculateCacheSize && cache.calculateSizeFunc != nil {
-		// We might miss here a momentary case of adding 2 messages when
-		// there is enough place for only one.
-		// The choice to put the check outside of the lock is intentional,
-		// we are 'saving' value allocation and lock by checking the size first
+	checkSize := cache.calculateCacheSize && cache.calculateSizeFunc != nil
+	if checkSize {
 		itemSize = cache.calculateSizeFunc(key, value)
-		if cache.currentCacheSize+itemSize > cache.maxCacheSize {
-			return fmt.Errorf(
-				"Cannot add item: max cache size would be exceeded."+
-					" Current cache size is %v",
-				cache.currentCacheSize)
-		}
 	}
 
 	ttlDuration := time.Duration(float64(time.Second) * ttlSec)
@@ -109,6 +100,17 @@ func (cache *MemoryCache[K, V]) Set(key K, value V, ttlSec float64) error {
 		ttlDuration.Nanoseconds()
 
 	cache.mutex.Lock()
+	// The size test and the size update are one critical section: testing
+	// before taking the lock lets concurrent writers all pass the test and
+	// then exceed the maximum together.
+	if checkSize && cache.currentCacheSize+itemSize > cache.maxCacheSize {
+		currentCacheSize := cache.currentCacheSize
+		cache.mutex.Unlock()
+		return fmt.Errorf(
+			"Cannot add item: max cache size would be exceeded."+
+				" Current cache size is %v",
+			currentCacheSize)
+	}
 	cache.cache[key] = ValueWrapper[V]{value, expirationTimeNano}
 	if cache.calculateCacheSize {
 		cache.currentCacheSize += itemSize
